@@ -43,8 +43,9 @@ TYPED_ACTIONS = [
 
 # ----------------------------------------------------------------------------- realisation
 
-PRELUDE = "class A: pass\nclass B(A): pass\nclass C(B): pass\n_c = C()\n"
-RANK_NAME = {0: "C", 1: "B", 2: "A", 3: "object"}
+PRELUDE = "class A: pass\nclass B(A): pass\nclass C(B): pass\nclass U: pass\n_c = C()\n_u = U()\n"
+RANK_NAME = {0: "C", 1: "B", 2: "A", 3: "object", 5: "U"}      # U is unrelated to the chain C <: B <: A
+UNRELATED = 5
 
 
 def def_source(sig: list[dict], ret: int, fname: str, body: str) -> str:
@@ -60,7 +61,8 @@ def def_source(sig: list[dict], ret: int, fname: str, body: str) -> str:
         elif k == "vk":
             parts.append("**" + name + ann)
         else:
-            dflt = "" if not p["dflt"] else ("=_c" if not ann else " = _c")
+            dval = "_u" if p["ty"] == UNRELATED else "_c"      # a default that is a member of the declared type
+            dflt = "" if not p["dflt"] else ("=" + dval if not ann else " = " + dval)
             parts.append(name + ann + dflt)
         if k == "po" and (i + 1 == len(sig) or kinds[i + 1] != "po"):
             parts.append("/")
@@ -178,10 +180,47 @@ def real_calls(case: dict) -> dict:
         out[tag] = bound
         out["total"] = total
     ns = _namespace()
-    cls = {0: ns["C"], 1: ns["B"], 2: ns["A"], 3: object}
+    cls = {0: ns["C"], 1: ns["B"], 2: ns["A"], 3: object, UNRELATED: ns["U"]}
     ranks = sorted({p["ty"] for p in case["exp"] + case["act"]} | {case["exp_ret"], case["act_ret"]} - {ANY})
     ranks = [r for r in ranks if r != ANY]
     out["chain"] = [[r1, r2, issubclass(cls[r1], cls[r2])] for r1 in ranks for r2 in ranks]
+    out["tc"] = _typed_calls(case, out["fb"], out["gb"], cls) if ranks else []
+    return out
+
+
+class _AnyArg:
+    """An argument whose type the expected signature leaves open (unannotated parameter)."""
+
+
+def _typed_calls(case: dict, fb: list, gb: list, cls: dict) -> list:
+    """For every call shape CPython binds in BOTH functions: call the actual function g with arguments that are
+    instances of the types the expected signature f declares for the parameters they land in (a keyword landing in
+    f's **kwargs: an instance of its value type, a positional landing in *args: of its element type) and
+    isinstance-check what every annotated parameter of g received (*args elements, **kwargs values; defaults that
+    were not overridden are g's own business).  -> [[n, keys, every argument is a member of its parameter's type]]"""
+    exp, act = case["exp"], case["act"]
+    g = real_function(act, case["act_ret"])
+    in_g = {(b[0], tuple(b[1])) for b in gb}
+    defaults = {id(d) for d in (g.__defaults__ or ())} | {id(d) for d in (g.__kwdefaults__ or {}).values()}
+    make = lambda ty: _AnyArg() if ty == ANY else cls[ty]()  # noqa: E731
+    out = []
+    for n, keys, pt, kt in fb:
+        if (n, tuple(keys)) not in in_g:
+            continue
+        pos = [make(exp[t - 1]["ty"]) for t in pt]
+        kws = {k: make(exp[t - 1]["ty"]) for k, t in zip(keys, kt)}
+        got = g(*pos, **kws)
+        ok = True
+        for p in act:
+            if p["ty"] == ANY:
+                continue
+            v = got[p["name"]]
+            vals = list(v) if p["kind"] == "va" else list(v.values()) if p["kind"] == "vk" else [v]
+            for x in vals:
+                if id(x) in defaults or isinstance(x, _AnyArg):
+                    continue
+                ok = ok and isinstance(x, cls[p["ty"]])
+        out.append([n, list(keys), ok])
     return out
 
 
